@@ -24,6 +24,7 @@ type CCR struct {
 	AmtRel string  `json:"amtRel,omitempty"` // "", bal-1, bal, bal+1: amount relative to the current balance (resolved at run time)
 	Sess   string  `json:"sess"`
 	Num    uint32  `json:"num"`
+	Lean   bool    `json:"lean,omitempty"`   // optional AVPs that would carry the value 0 are not sent at all (Requested-Action DIRECT_DEBITING, Service-Identifier 0): an absent AVP means its default, whatever an earlier request carried
 	Both   bool    `json:"both,omitempty"`   // carry requested and used service units both
 	Used   *uint64 `json:"used,omitempty"`   // with Both: the used service units differ from the requested ones (a reservation and a refund state their amount as requested units, a termination debit as used units)
 	IdType int     `json:"idType,omitempty"` // Subscription-Id-Type (0 E164, 1 IMSI, 2 SIP URI, 3 NAI, 4 PRIVATE); only IMSI names an account
@@ -70,6 +71,7 @@ func genC07(t *rapid.T) C07Case {
 		}
 		r.Sess = rapid.SampledFrom([]string{"s1", "", "session;with;semicolons", "séssion-ü", "a-very-long-session-identifier-0123456789012345678901234567890123456789012345678901234567890123456789"}).Draw(t, "sess")
 		r.Num = rapid.SampledFrom([]uint32{0, 1, 2, 77, math.MaxUint32}).Draw(t, "num")
+		r.Lean = rapid.IntRange(0, 3).Draw(t, "lean") == 0
 		r.Both = rapid.IntRange(0, 4).Draw(t, "both") == 0
 		if r.Both && rapid.Bool().Draw(t, "usedDiffers") {
 			u := rapid.SampledFrom([]uint64{0, 1, 7, 120, 500, 5000}).Draw(t, "used")
@@ -204,6 +206,23 @@ func judgeC07(c C07Case) *h.Verdict {
 		msg := diam.NewRequest(ccode.ABMF_CreditControl, ccode.Re_interface, dict.Default)
 		if err := msg.Marshal(ccr); err != nil {
 			return v.Failf("HARNESS-marshal", "%v", err)
+		}
+		if r.Lean {
+			var kept []*diam.AVP
+			for _, a := range msg.AVP {
+				if a.Code == 436 && r.Action == 0 { // Requested-Action DIRECT_DEBITING
+					continue
+				}
+				if a.Code == 439 && svcID == 0 { // a top-level Service-Identifier 0
+					continue
+				}
+				kept = append(kept, a)
+			}
+			if len(kept) != len(msg.AVP) {
+				msg.AVP = kept
+				msg.Header.MessageLength = uint32(msg.Len())
+				v.Label("zero-valued-avps-not-sent")
+			}
 		}
 		before := map[int]int64{}
 		for i, a := range accts {
